@@ -14,7 +14,7 @@ CHECKS = {
    engine='verus', category='proof', design_ref='DESIGN.md §3 C28',
    technique='contract-based deductive verification (Verus): wf/ensures/decreases and lemma calls spliced onto UnionFind::find / UnionFind::union extracted verbatim each run',
    text='PARTIAL: the equivalence-class machinery only. Unbounded proof that find returns the class representative and changes no class (path compression), and that union merges exactly the two classes and nothing else, over an abstract root_of view with representation invariant parent[k] < k (which also gives termination of the recursive find).',
-   note='Not covered (stated in evidence): the structural-equality relation itself (is_structurally_equal/types_equal), type_id_info content flags and the two inline merge loops of collect_equal_types need a wit_parser::Resolve, out of reach of both verifiers. Trusted: vstd HashMap spec, Option::copied spec, TypeId := usize.'),
+   note='Not covered (stated in evidence): the structural-equality relation itself (is_structurally_equal/types_equal), type_id_info content flags need a wit_parser::Resolve, out of reach of both verifiers. The two inline fact-merge loops of collect_equal_types are cut out as a block and checked by Kani as a BOUNDED stand-in (three types, every union-find shape over them, all fact combinations; std HashMap replaced by a trusted finite-map model), not counted as proved. Trusted: vstd HashMap spec, Option::copied spec, TypeId := usize.'),
  'C17': dict(
    engine='verus', category='proof', design_ref='DESIGN.md §3 C17',
    technique='contract-based deductive verification (Verus): first-match specification spliced onto AsyncFilterSet::is_async / ensure_all_used extracted verbatim each run (loop invariants at the desugared for-enumerate loop)',
@@ -76,12 +76,26 @@ CHECKS['C22'] = dict(
    text='BOUNDED contract checking, not a proof (level "other"): at most one registered waitable, scripted Rust work, one step per harness over a sampled set of abstract states. Per step: EXIT exactly when no Rust work and no registered waitable remain; WAIT on the task\'s own waitable set while something is pending and not woken; YIELD when woken during polling (after polling the set and delivering what it reports); an event is delivered to its callback exactly once, after the waitable has left every set, with the host\'s code, and the work is polled again; cancellation exits without polling; the state slot is empty while a callback runs, holds the same state afterwards unless EXIT, and the task with its destructors is released exactly once on exit or cancellation with the task installed; CallbackCode encoding for all set ids; register/unregister keep the task map and the host set in step.',
    note='BOUNDED: <= 1 waitable, two-slot map model kept in a static under the model checker (BTreeMap trusted), one task per harness. Not covered: block_on, spawned work (async-spawn), TaskCancelOnDrop, multi-callback histories beyond the inductive reading of the single steps. Trusted: mock host.')
 
+CHECKS['C05'] = dict(
+   engine='kani', category='other', design_ref='DESIGN.md §9.9 C05/C06',
+   technique='contract harnesses (Kani/CBMC) on the bindings the real Rust generator produces for a value probe world, the harness acting as the host at the core-ABI boundary with hand-written Canonical-ABI encodings (flat parameters, joined variant slots, return-area layout)',
+   text='PARTIAL and BOUNDED (level "other"): for ONE probe world, export direction. Every generated export trampoline hands the user function exactly the value the host lowered and stores exactly the value the user returned at its canonical offsets: record, tuple, option, result, flags, enum and the numeric cases of a variant with a joined 64-bit-or-pointer slot over their full domains; string, list<u8>, list<u32>, the variant\'s string case and list<string> for bounded lengths.',
+   note='BOUNDED: list/string lengths 0..=2 (list<string>: <= 1 element of <= 1 byte), ASCII only; one probe world; imports, async, resources (C07) not driven. The host side is hand-written in the harness from CanonicalABI.md with the 64-bit target\'s pointer size (the generator emits size_of::<*const u8>() offsets, so wasm32 is the same text with P = 4). std UTF-8 validation is a trusted stub.')
+CHECKS['C06'] = dict(
+   engine='kani', category='other', design_ref='DESIGN.md §9.9 C05/C06',
+   technique='contract harnesses (Kani/CBMC) on the same generated bindings with every heap block going through a ledger (contract stubs on alloc/dealloc/realloc and std\'s private *_nonnull variants)',
+   text='PARTIAL and BOUNDED (level "other"): for string, list<u8>, list<u32>, a variant with a string case and list<string> parameters and results of one probe world, after the export trampoline, the user function and the generated post-return: no block was freed twice or with a size/alignment other than the one it was allocated with, the host-provided buffers were taken over exactly once, and nothing is left allocated; out-of-bounds accesses are excluded by CBMC\'s pointer checks.',
+   note='BOUNDED: lengths as C05. A read after free is NOT observable in this harness (a stub cannot call the function it replaces, so freed memory is never returned to the allocator model); double free, foreign-layout free and leaks are. Imports, async and resources are not driven.')
+
+CHECKS['C02'] = dict(
+   engine='kani', category='other', design_ref='DESIGN.md §9.11 C02',
+   technique='contract harnesses (Kani/CBMC) on the call glue the real Rust generator produces for a calling-convention probe world, against a mock host reading/writing the canonical parameter record and return area; plus a comparison of each generated core declaration with the hand-written canonical core signature',
+   text='PARTIAL and BOUNDED (level "other"): the shared call glue as instantiated by the Rust backend for one probe world, synchronous functions. 16 parameters are passed flat and 17 through one pointer to a record with field i at its canonical offset, as import and as export; a scalar result is returned directly and a two-field result through a return pointer / return area at canonical offsets; exactly one core call (import) or one user call (export) is made; the caller-allocated parameter record of an export is freed exactly once with its own size and alignment; the six generated core declarations have exactly the canonical core signatures.',
+   note='BOUNDED/PARTIAL: one backend (Rust), one probe world, u32 parameters; async ABI variants and the other backends are not covered. Expected core signatures and the mock host are hand-written from CanonicalABI.md.')
+
 NOT_APPLICABLE = {
  'C01': 'shared ABI generator is generic over Bindgen/Resolve with closures and iterator adapters (outside the Verus subset); Kani did not finish one tuple<u8,u32> through the real generator in 15 min (DESIGN §5)',
- 'C02': 'same functions as C01: no contract within reach of Verus/Kani can express the calling convention over all signatures (DESIGN §5)',
  'C03': 'same functions as C01 (deallocate / deallocate_indirect over Resolve): outside both verifiers (DESIGN §5)',
- 'C05': 'statement about a compiled wasm component judged by an independent host; no contract on a string-returning generator can express it (DESIGN §5)',
- 'C06': 'as C05 (heap behaviour of compiled bindings under a host) (DESIGN §5)',
  'C08': 'as C05 (async vs sync bindings compared under a host) (DESIGN §5)',
  'C09': 'decided by rustc + the component encoder, not by a postcondition (DESIGN §5)',
  'C10': 'as C05 for the C backend (DESIGN §5)',
